@@ -23,6 +23,18 @@ for k in sorted(m):
 print()
 print("| behaviour-preserving variant (selftest/benign) | reported by |")
 print("|---|---|")
+waves = {}
 for k in sorted(m):
     if k.startswith("benign/"):
-        print("| %s | %s |" % (k[7:], ", ".join(m[k].get("fires", [])) or "— (silent)"))
+        n = k[7:]
+        w = n.split("-")[0]
+        if w in ("R", "R2", "R3", "R4"):
+            waves.setdefault(w, []).append((n, m[k].get("fires", [])))
+            continue
+        print("| %s | %s |" % (n, ", ".join(m[k].get("fires", [])) or "— (silent)"))
+for w in ("R", "R2", "R3", "R4"):
+    if w in waves:
+        loud = [(n, f) for (n, f) in waves[w] if f]
+        print("| wave %s of sub-agent refactorings: %d variants | %d silent%s |" % (
+            w, len(waves[w]), len(waves[w]) - len(loud),
+            ("; still firing: " + "; ".join("%s (%s)" % (n, ", ".join(f)) for n, f in loud)) if loud else ""))
